@@ -176,13 +176,15 @@ func (st *ShareState) SlashRedelegationsAsImplemented(groups []*redelGroup, f *b
 		t := new(big.Rat).SetInt(rfloor(rmul(f, ratInt(g.Balance))))
 		D := getRR(st.D, g.Dst, g.Denom)
 		var x *big.Rat
-		if rfloor(D).Sign() == 0 {
+		if D.Sign() == 0 {
 			x = t
 		} else {
 			x = rmul(rquo(D, K), t)
 		}
+		diff := rabs(rsub(s, x))
 		switch {
-		case rabs(rsub(s, x)).Cmp(ratCent) < 0:
+		// rounding margin: below 0.01 share and (D > 0) also worth less than 0.01 token
+		case diff.Cmp(ratCent) < 0 && (D.Sign() == 0 || rmul(rquo(diff, D), K).Cmp(ratCent) < 0):
 			x = s
 		case s.Cmp(new(big.Rat).SetInt(rfloor(x))) < 0:
 			x = s
